@@ -36,10 +36,11 @@ MigrateOK ==
   /\ ~Ev.panic                                   \* never a crash
   /\ Ev.in_after = Ev.in_before                  \* the input file is left unmodified
   /\ IF decodable
-     THEN Ev.exit = 0 /\ Ev.wrote /\ TreeOK(v2, Ev.v3) /\ FilesOK(lay, ToSet(Ev.changed))
+     THEN /\ FilesOK(lay, ToSet(Ev.changed))
+          /\ lay.out # "input" => Ev.exit = 0 /\ Ev.wrote /\ TreeOK(v2, Ev.v3)
      ELSE "input" \notin ToSet(Ev.changed)                                   \* not a v2 file: nothing more is promised (strict decoding makes
                                                  \* the command refuse it today; the statement does not require that)
-CMigrate == migrated' = decodable /\ UNCHANGED <<v2, decodable, lay>>
+CMigrate == migrated' = (decodable /\ lay.out # "input") /\ UNCHANGED <<v2, decodable, lay>>
 
 LoadOK == migrated => Ev.exit = 0 /\ ~Ev.panic /\ LoadedOK(v2, Ev.eff)
 CLoad == UNCHANGED <<v2, decodable, lay, migrated>>
